@@ -185,6 +185,5 @@ Proof.
     + cbn [snd In]. intuition discriminate.
     + unfold do_dial_addr. repeat match goal with |- context [if ?b then _ else _] => destruct b end;
         try (destruct (can_dial (state_of _ p))); cbn [snd In]; intuition discriminate.
-    + unfold do_dial_addr_missing. repeat match goal with |- context [if ?b then _ else _] => destruct b end;
-        try (destruct (can_dial (state_of _ p))); cbn [snd In]; intuition discriminate.
+    + cbn [snd In]. intuition discriminate.
 Qed.
